@@ -96,20 +96,21 @@ type Exec struct {
 	Prog *ssa.Program
 	Pkg  *ssa.Package
 
-	nextObj int
-	objType map[int]types.Type
-	globals map[*ssa.Global]int
-	libGlobals map[int]bool
-	DecSegs bool // render %d of symbolic ints as decimal segments instead of digit bytes
-	MaxSymLen int
+	nextObj     int
+	objType     map[int]types.Type
+	globals     map[*ssa.Global]int
+	libGlobals  map[int]bool
+	DecSegs     bool // render %d of symbolic ints as decimal segments instead of digit bytes
+	MaxSymLen   int
 	CaptureMark int
-	FeasCalls int
-	Tags      map[int]string // harness-given names of objects (vTag)
-	stubCalls map[string]int
-	PruneIf   bool // ask the solver at every symbolic branch whether each side is feasible
-	Deadline  time.Time
-	MaxTerms  int
-	MaxIters  int // cap for loops whose continuation is decided concretely
+	FeasCalls   int
+	Tags        map[int]string // harness-given names of objects (vTag)
+	stubCalls   map[string]int
+	Concrete    map[string]string // when set, inputs are these concrete values (interpreter replay)
+	PruneIf     bool              // ask the solver at every symbolic branch whether each side is feasible
+	Deadline    time.Time
+	MaxTerms    int
+	MaxIters    int // cap for loops whose continuation is decided concretely
 
 	Obls     []Obligation
 	Sides    []SideObl
